@@ -52,12 +52,27 @@ class Decoder:
             if got[0] != sc["start"]:
                 raise common.MachineryError(f"window placement not reproducible: {sc} -> {got}")
             subs.append(sb)
+        # buses whose add() is refused are not subordinates: their read data must not reach the decoder
+        outsiders = []
+        for k, sc in enumerate(cfg.get("rejected", [])):
+            sb = csr.Interface(addr_width=sc["aw"], data_width=cfg["dw"], path=(f"out{k}",))
+            sb.memory_map = MemoryMap(addr_width=sc["aw"], data_width=cfg["dw"])
+            try:
+                dec.add(sb, name=sc.get("name"), addr=sc.get("addr"))
+            except ValueError:
+                outsiders.append(sb)
+            else:
+                raise common.MachineryError("a subordinate recorded as refused was accepted on rebuild")
         ins = {"addr": dec.bus.addr, "r_stb": dec.bus.r_stb, "w_stb": dec.bus.w_stb, "w_data": dec.bus.w_data}
         outs = {"r_data": dec.bus.r_data}
         for k, sb in enumerate(subs):
             ins[f"rd{k}"] = sb.r_data
             for s in ("addr", "r_stb", "w_stb", "w_data"):
                 outs[f"{s}{k}"] = getattr(sb, s)
+        for k, sb in enumerate(outsiders):
+            ins[f"xrd{k}"] = sb.r_data
+            outs[f"xr{k}"] = sb.r_stb
+            outs[f"xw{k}"] = sb.w_stb
         return dec, ins, outs, None, False
 
     def sim_input(self, cfg, i, r):
@@ -74,7 +89,8 @@ class Decoder:
                       "sub_r_data": [bits(i[f"rd{k}"], dw) for k in range(n)]},
                 "o": {"r_data": bits(o["r_data"], dw),
                       "subs": [{"addr": o[f"addr{k}"], "r_stb": o[f"r_stb{k}"], "w_stb": o[f"w_stb{k}"],
-                                "w_data": bits(o[f"w_data{k}"], dw)} for k in range(n)]}}
+                                "w_data": bits(o[f"w_data{k}"], dw)} for k in range(n)],
+                      "stray": sum(o.get(f"xr{k}", 0) + o.get(f"xw{k}", 0) for k in range(len(cfg.get("rejected", []))))}}
 
     def random_cfg(self, r):
         """Windows placed by the REAL decoder (implicit / aligned-explicit / align_to / decoder
@@ -84,7 +100,7 @@ class Decoder:
             dw = r.choice([1, 4, 8, 16, 32])
             al = r.choice([0, 0, 1, 2])
             dec = csr.Decoder(addr_width=aw, data_width=dw, alignment=al)
-            subs, names = [], []
+            subs, names, rejected = [], [], []
             pre = []
             for k in range(r.randint(0, 5)):
                 saw = r.randint(1, max(1, aw - 1))
@@ -102,12 +118,14 @@ class Decoder:
                 try:
                     start, stop, _ = dec.add(sb, name=name, addr=addr)
                 except ValueError:
+                    rejected.append({"aw": saw, "addr": addr, "name": name, "after": len(subs)})
                     continue
                 sc["start"] = start
                 sc["align_to"], pre = pre, []
                 subs.append(sc)
                 names.append(name)
-            return {"aw": aw, "dw": dw, "al": al, "subs": subs, "names": names}
+            rejected = [x for x in rejected if x["after"] == len(subs)][:2]
+            return {"aw": aw, "dw": dw, "al": al, "subs": subs, "names": names, "rejected": rejected}
 
     def random_schedule(self, r, cfg, length):
         aw, dw, n = cfg["aw"], cfg["dw"], len(cfg["subs"])
@@ -122,6 +140,8 @@ class Decoder:
             busy = r.randrange(n) if n and r.random() < 0.6 else None
             for k in range(n):
                 d[f"rd{k}"] = r.getrandbits(dw) if (k == busy or r.random() < 0.05) else 0
+            for k in range(len(cfg.get("rejected", []))):
+                d[f"xrd{k}"] = r.getrandbits(dw)
             yield d
 
     def nontrivial(self, s):
